@@ -147,6 +147,11 @@ type Scenario struct {
 	Middlewares int       `json:"middlewares"`
 	Segments    []string  `json:"segments"` // Uri-Path option values of the request ("" allowed)
 	NoPath      bool      `json:"nopath"`   // request without any Uri-Path option
+	// Again: indices of patterns that are registered a second time, with another handler (the later
+	// registration is the one in force); Removed: indices of patterns removed again with HandleRemove
+	// before the request (a pattern in both lists is removed after its second registration)
+	Again   []int `json:"again,omitempty"`
+	Removed []int `json:"removed,omitempty"`
 }
 
 type fakeWriter struct{ msg *pool.Message }
@@ -161,6 +166,7 @@ func (w *fakeWriter) Message() *pool.Message     { return w.msg }
 
 type call struct {
 	who      string // pattern string or "<default>"
+	gen      int    // which registration of the pattern this handler belongs to (1 or 2)
 	vars     map[string]string
 	template string
 	path     string
@@ -190,19 +196,46 @@ func Exec(sc Scenario) *evid.Failure {
 	var calls []call
 	var order []string
 	byPattern := map[string]Pattern{}
-	for _, p := range sc.Patterns {
+	inForce := map[string]int{}
+	register := func(p Pattern, gen int) *evid.Failure {
 		ps := p.String()
 		byPattern[filter(ps)] = p
+		inForce[filter(ps)] = gen
 		err := r.Handle(ps, mux.HandlerFunc(func(w mux.ResponseWriter, req *mux.Message) {
 			vars := map[string]string{}
 			for k, v := range req.RouteParams.Vars {
 				vars[k] = v
 			}
-			calls = append(calls, call{ps, vars, req.RouteParams.PathTemplate, req.RouteParams.Path})
+			calls = append(calls, call{ps, gen, vars, req.RouteParams.PathTemplate, req.RouteParams.Path})
 			order = append(order, "handler")
 		}))
 		if err != nil {
 			return evid.Failf("route/handle-refused", sc, "Handle(%q) refused a valid pattern: %v", ps, err)
+		}
+		return nil
+	}
+	for _, p := range sc.Patterns {
+		if f := register(p, 1); f != nil {
+			return f
+		}
+	}
+	for _, i := range sc.Again {
+		if i < len(sc.Patterns) {
+			if f := register(sc.Patterns[i], 2); f != nil {
+				return f
+			}
+		}
+	}
+	for _, i := range sc.Removed {
+		if i < len(sc.Patterns) {
+			ps := sc.Patterns[i].String()
+			if _, ok := byPattern[filter(ps)]; !ok {
+				continue
+			}
+			if err := r.HandleRemove(ps); err != nil {
+				return evid.Failf("route/remove-refused", sc, "HandleRemove(%q) of a registered pattern failed: %v", ps, err)
+			}
+			delete(byPattern, filter(ps))
 		}
 	}
 	if sc.Default {
@@ -266,6 +299,9 @@ func Exec(sc Scenario) *evid.Failure {
 		}
 		if len(filter(c.who)) != longest {
 			return evid.Failf("route/not-longest", sc, "path %q dispatched to %q (length %d) although a matching pattern of length %d exists: %q", path, c.who, len(filter(c.who)), longest, matching)
+		}
+		if c.gen != inForce[filter(c.who)] {
+			return evid.Failf("route/stale-handler", sc, "path %q was dispatched to the handler of registration %d of pattern %q; registration %d is the one in force", path, c.gen, c.who, inForce[filter(c.who)])
 		}
 		if c.template != filter(c.who) {
 			return evid.Failf("route/template", sc, "PathTemplate = %q, handler pattern %q", c.template, c.who)
@@ -428,6 +464,12 @@ func genScenario(t *rapid.T) Scenario {
 			seen[s] = true
 			sc.Patterns = append(sc.Patterns, p)
 		}
+	}
+	if rapid.IntRange(0, 3).Draw(t, "rereg") == 0 {
+		sc.Again = rapid.SliceOfNDistinct(rapid.IntRange(0, len(sc.Patterns)-1), 1, len(sc.Patterns), rapid.ID[int]).Draw(t, "again")
+	}
+	if len(sc.Patterns) > 1 && rapid.IntRange(0, 5).Draw(t, "remove") == 0 {
+		sc.Removed = rapid.SliceOfNDistinct(rapid.IntRange(0, len(sc.Patterns)-1), 1, len(sc.Patterns)-1, rapid.ID[int]).Draw(t, "removed")
 	}
 	var path string
 	switch rapid.IntRange(0, 9).Draw(t, "pathkind") {
@@ -631,7 +673,7 @@ func TestCheck(t *testing.T) {
 		return f
 	})
 	r.Main(evid.Meta{
-		Rule:        "1-6 patterns from a segment grammar (literals with regexp metacharacters and multi-byte runes, {v}, {v:[0-9]+}, {v:[a-z]+}, {v:.*}, {v:[^/]+}, several variables per segment, derived overlapping/prefix patterns, \"\" and \"/\") and a request path (instance of a pattern, mutated instance, random segments incl. empty and non-UTF-8 ones, or none); oracle: a hand-written backtracking matcher gives the set of patterns matching the entire path; exactly one invocation, default iff the set is empty, else a member of maximal length, variables valid (substitution reproduces the path, classes satisfied), PathTemplate, middleware order. Non-trivial = >= 2 patterns match or the matching literal contains a metacharacter; distinct by scenario. Concurrent phase under -race: Handle/HandleRemove/DefaultHandle vs ServeCOAP with stable routes",
+		Rule:        "1-6 patterns from a segment grammar (literals with regexp metacharacters and multi-byte runes, {v}, {v:[0-9]+}, {v:[a-z]+}, {v:.*}, {v:[^/]+}, several variables per segment, derived overlapping/prefix patterns, \"\" and \"/\") and a request path (instance of a pattern, mutated instance, random segments incl. empty and non-UTF-8 ones, or none); oracle: a hand-written backtracking matcher gives the set of patterns matching the entire path; patterns may be registered a second time with another handler (the later one is in force) or removed again before the request; exactly one invocation, default iff the set is empty, else a member of maximal length, variables valid (substitution reproduces the path, classes satisfied), PathTemplate, middleware order. Non-trivial = >= 2 patterns match or the matching literal contains a metacharacter; distinct by scenario. Concurrent phase under -race: Handle/HandleRemove/DefaultHandle vs ServeCOAP with stable routes",
 		Assumptions: []string{"patterns are valid UTF-8 without U+FFFD and without capturing groups (documented restriction); Router.Use is not called concurrently with dispatch", "ties between equally long matching patterns may be resolved either way"},
 		Floor:       1000,
 	}, seq, concurrentEngine())
